@@ -33,7 +33,8 @@ import (
 )
 
 const c15Timeout = 20 * time.Second
-const pipeBuf = 4096 // F_SETPIPE_SZ for the closing-reader pipe
+// pipeBuf is what F_SETPIPE_SZ shrinks the closing-reader pipe to (probed at start-up)
+var pipeBuf = 65536
 
 // ---------- environment built once per suite run ----------
 
@@ -54,6 +55,7 @@ type c15Env struct {
 	scrypt  []byte  // a passphrase-encrypted file (work factor 10)
 	verLine []byte  // what `age -version` prints
 	keyLen  int     // length of what age-keygen prints
+	pty     bool    // pseudo-terminals are available
 	seq     int64
 	wg      sync.WaitGroup
 }
@@ -82,6 +84,16 @@ func newC15Env() (*c15Env, error) {
 			return e, fmt.Errorf("go build %s: %v\n%s", b[1], err, out)
 		}
 	}
+	// how small can a pipe be made
+	if pr, pw, perr := os.Pipe(); perr == nil {
+		syscall.Syscall(syscall.SYS_FCNTL, pw.Fd(), 1031 /* F_SETPIPE_SZ */, 4096)
+		if n, _, en := syscall.Syscall(syscall.SYS_FCNTL, pw.Fd(), 1032 /* F_GETPIPE_SZ */, 0); en == 0 && n > 0 {
+			pipeBuf = int(n)
+		}
+		pr.Close()
+		pw.Close()
+	}
+	e.pty = ptyAvailable()
 	// keys
 	x, err := age.GenerateX25519Identity()
 	if err != nil {
@@ -275,7 +287,7 @@ func (e *c15Env) run(s *procSpec) *procObs {
 		if perr != nil {
 			panic(perr)
 		}
-		syscall.Syscall(syscall.SYS_FCNTL, pw.Fd(), 1031 /* F_SETPIPE_SZ */, pipeBuf)
+		syscall.Syscall(syscall.SYS_FCNTL, pw.Fd(), 1031 /* F_SETPIPE_SZ */, 4096)
 		cmd.Stdout = pw
 		if s.cap == 0 {
 			pr.Close()
@@ -388,6 +400,7 @@ type cliCase struct {
 	cap    int
 	fsize  int64
 	umask  int
+	tty    *ttySpec // run with a controlling pseudo-terminal
 	// oracle for the model
 	passOK  bool
 	wrapOK  bool
@@ -521,7 +534,16 @@ func (c *cliCase) worldField(wd string, pre map[string]fstate, target string) st
 	if c.fsize >= 0 {
 		fs = fmt.Sprint(c.fsize)
 	}
-	return fmt.Sprintf("cwd=%s;fsize=%s;umask=%d;tin=0;close=0;out=%s;nodes=%s", hx(wd), fs, c.umask, outK, listOf(ns))
+	tin := "0"
+	if c.tty != nil {
+		if c.tty.stdinTTY {
+			tin = "1"
+		}
+		if c.tty.stdoutTTY {
+			outK = "t"
+		}
+	}
+	return fmt.Sprintf("cwd=%s;fsize=%s;umask=%d;tin=%s;close=0;out=%s;nodes=%s", hx(wd), fs, c.umask, tin, outK, listOf(ns))
 }
 
 func (c *cliCase) line(e *c15Env, wd string, pre map[string]fstate, target string) string {
@@ -644,7 +666,12 @@ func (c *cliCase) exec(e *c15Env) *h.Case {
 	if strings.Contains(c.flags, "n") {
 		spec.args = nil
 	}
-	o := e.run(spec)
+	var o *procObs
+	if c.tty != nil {
+		o = e.runPty(spec, c.tty)
+	} else {
+		o = e.run(spec)
+	}
 	post := map[string]fstate{}
 	for p := range tracked {
 		post[p] = snap(p)
